@@ -457,6 +457,11 @@ func (c *LNClient) pay(ctx context.Context, method, request string, amountMsat, 
 		return lightning.PaymentStatus{Preimage: n.preimage(p), PaymentStatus: lightning.Succeeded}, nil
 	case "failed":
 		p.Truth = ptFailed
+		// a backend reports a failed payment as status FAILED with or without an error value (the real
+		// adapters differ); chosen from the payment hash, so that it costs no tape draw
+		if len(p.Hash) > 1 && p.Hash[len(p.Hash)-2]%2 == 0 {
+			return lightning.PaymentStatus{PaymentStatus: lightning.Failed, PaymentFailureReason: "no route"}, nil
+		}
 		return lightning.PaymentStatus{PaymentStatus: lightning.Failed}, errors.New("SIMFAULT-LN payment error: no route")
 	case "pending":
 		p.Truth = ptInflight
